@@ -12,7 +12,7 @@ namespace Fiano.Nvram
 /-- nested bytes attached to an entry as a function of its content (fiano: `v.NVarStore.Buf()` for
     the store found in the content at parse time) -/
 def liftF (fc : Bytes → Option Bytes) (v : NVar) : Option Bytes :=
-  if v.hasContent then fc (content v) else none
+  if v.hasContent && !hasBit v.attrs aExtHdr then fc (content v) else none
 
 def retag (F : NVar → Option Bytes) (ps : List (NVar × Option Bytes)) : List (NVar × Option Bytes) :=
   ps.map (fun p => (p.1, F p.1))
@@ -79,7 +79,7 @@ theorem asmNVar_eq (pol : Nat) (v : NVar) (c : Bytes) (chk : Bool) :
                              size := (hdrOf pol v ++ gn).length + c.length, buf := hdrOf pol v ++ gn ++ c }) := rfl
 
 theorem asmNVar_false_ok (pol : Nat) (v0 : NVar) (c : Bytes) (v : NVar) (h : asmNVar pol v0 c false = .ok v) :
-    content v = c ∧ v.hasContent = v0.hasContent := by
+    content v = c ∧ v.hasContent = v0.hasContent ∧ v.attrs = v0.attrs := by
   rw [asmNVar_eq] at h
   split at h
   · cases h
@@ -92,7 +92,7 @@ theorem asmNVar_false_ok (pol : Nat) (v0 : NVar) (c : Bytes) (v : NVar) (h : asm
         · cases h
         · injection h with h
           subst h
-          refine ⟨?_, rfl⟩
+          refine ⟨?_, rfl, rfl⟩
           simp only [content]
           exact drop_append_len _ _ _ rfl
 
@@ -157,7 +157,7 @@ theorem asmNVar_true_len (pol : Nat) (v : NVar) (c c' : Bytes) (hlen : c'.length
       rw [checkPre_ok pol v pre hp, take_append_len _ _ _ rfl]
 
 theorem asmNVar_true_ok (pol : Nat) (v : NVar) (c : Bytes) (w : NVar) (h : asmNVar pol v c true = .ok w) :
-    w.hasContent = v.hasContent ∧ content w = c := by
+    w.hasContent = v.hasContent ∧ content w = c ∧ w.attrs = v.attrs := by
   rw [asmNVar_true] at h
   cases hp : checkPre pol v with
   | error e => rw [hp] at h; cases h
@@ -168,11 +168,18 @@ theorem asmNVar_true_ok (pol : Nat) (v : NVar) (c : Bytes) (w : NVar) (h : asmNV
     · cases h
     · injection h with h
       subst h
-      refine ⟨rfl, ?_⟩
+      refine ⟨rfl, ?_, rfl⟩
       simp only [content, checkPre_ok pol v pre hp]
       exact drop_append_len _ _ _ rfl
 
 /-! ### second loop -/
+
+/-- the merged attributes carry the extended-header bit of the last link -/
+theorem mergeAttrs_ext (h k : Nat) : hasBit (mergeAttrs h k) aExtHdr = hasBit k aExtHdr := by
+  unfold hasBit mergeAttrs aExtHdr
+  have : (h % 16 + 16 * (k / 16 % 2) + 32 * (h / 32 % 2) + 64 * (k / 64 % 2) + 128 * (h / 128 % 2)) / 16 % 2
+      = k / 16 % 2 := by omega
+  rw [this]
 
 theorem pass2_retag (fc : Bytes → Option Bytes) (pol : Nat) (m : List (Nat × NVar)) :
     ∀ (ks : List (NVar × Option Bytes)) (off : Nat) (gs : List Bytes),
@@ -196,10 +203,10 @@ theorem pass2_retag (fc : Bytes → Option Bytes) (pol : Nat) (m : List (Nat × 
       · rfl
       · rename_i v heq
         rw [ih]
-        obtain ⟨h1, h2⟩ := asmNVar_false_ok _ _ _ _ heq
+        obtain ⟨h1, h2, h3⟩ := asmNVar_false_ok _ _ _ _ heq
         have hF : liftF fc v = liftF fc k := by
           unfold liftF
-          rw [h1, h2]
+          rw [h1, h2, h3, mergeAttrs_ext]
         cases pass2 pol m ks (off + v.buf.length) _ with
         | error e => rfl
         | ok r =>
@@ -234,9 +241,9 @@ theorem finalCheck_retag (fc : Bytes → Option Bytes) (hfc : ∀ c b, fc c = so
         | error e => rfl
         | ok es =>
           simp only [List.map_cons]
-          obtain ⟨h1, h2⟩ := asmNVar_true_ok pol v (content v) w hw
+          obtain ⟨h1, h2, h3⟩ := asmNVar_true_ok pol v (content v) w hw
           have : liftF fc w = none := by
-            rw [← hF]; unfold liftF; rw [h1, h2]
+            rw [← hF]; unfold liftF; rw [h1, h2, h3]
           simp [substC, this]
     | some b =>
       simp only
@@ -254,9 +261,9 @@ theorem finalCheck_retag (fc : Bytes → Option Bytes) (hfc : ∀ c b, fc c = so
         | error e => rfl
         | ok es =>
           simp only [List.map_cons]
-          obtain ⟨h1, h2⟩ := asmNVar_true_ok pol v (content v) w hw
+          obtain ⟨h1, h2, h3⟩ := asmNVar_true_ok pol v (content v) w hw
           have : liftF fc w = some b := by
-            rw [← hF]; unfold liftF; rw [h1, h2]
+            rw [← hF]; unfold liftF; rw [h1, h2, h3]
           simp [substC, this]
 
 /-! ### the whole of `compactNVarStore` -/
